@@ -196,13 +196,14 @@ Definition lval_eqb (a b : lval) : bool :=
   | LIds x, LIds y => list_eqb N.eqb x y
   | _, _ => false
   end.
-Definition label_eqb (a b : string * lval) : bool := String.eqb (fst a) (fst b) && lval_eqb (snd a) (snd b).
+(* (cheap comparisons first: these run on every pair of samples of a case) *)
+Definition label_eqb (a b : string * lval) : bool := lval_eqb (snd a) (snd b) && String.eqb (fst a) (fst b).
 (* same series: same metric name and same label set (label order is immaterial: Prometheus sorts by label name) *)
 Definition labels_eqb (a b : list (string * lval)) : bool :=
   Nat.eqb (length a) (length b) && forallb (fun x => existsb (label_eqb x) b) a.
 Definition series_eqb (a b : sample) : bool :=
-  String.eqb (fst (fst a)) (fst (fst b)) && labels_eqb (snd (fst a)) (snd (fst b)).
-Definition sample_eqb (a b : sample) : bool := series_eqb a b && Z.eqb (snd a) (snd b).
+  labels_eqb (snd (fst a)) (snd (fst b)) && String.eqb (fst (fst a)) (fst (fst b)).
+Definition sample_eqb (a b : sample) : bool := Z.eqb (snd a) (snd b) && series_eqb a b.
 
 Fixpoint has_dup (l : list sample) : bool :=
   match l with
